@@ -347,8 +347,8 @@ class Labware:
             label = self._labels[-1]
         state = self._history[-1]
         # cut away the history
-        self._labels = self._labels[:-n]
-        self._history = self._history[:-n]
+        self._labels = self._labels[: max(0, len(self._labels) - n)]
+        self._history = self._history[: max(0, len(self._history) - n)]
         # append the last state
         self._labels.append(label)
         self._history.append(state)
